@@ -238,6 +238,34 @@ Theorem maximal_trace_all_done :
 Proof. exact CacheWork.maximal_trace_all_done. Qed.
 Print Assumptions maximal_trace_all_done.
 
+(* FINITE WORK, THEN DONE — the closest statement to the property's "every call finishes".
+   Split any accepted trace as tr1 ++ tr2 where tr2 is a stretch in which only the library moves
+   (no IEnd, Cancel, loop event, clock move, cancelled proxy).  Then
+   (1) that stretch is SHORT: the library events of tr1 plus the whole length of tr2 are bounded by
+       the number of callers and the environment's events in tr1 (+ time-outs, each paid for by
+       61440 ticks of the clock): the library cannot go on for ever on its own;
+   (2) and when the stretch cannot be extended (no library event / proxy result is accepted any
+       more), the environment has ended every invocation and no shutdown run is half-way, then every
+       call on a live loop that was started is answered, or it sits in a timed wait whose deadline is
+       ahead and towards which the clock can move.
+   So between two moves of the environment the library does a bounded amount of work and is never
+   stuck with an unanswered call; only "the scheduler is fair and the clock keeps running" is left. *)
+Theorem finite_work_then_done :
+  forall n tbl tr1 tr2 s, run (init n tbl) (tr1 ++ tr2) = Some s ->
+    (forall e, In e tr2 -> lib_event e = true) ->
+    n_lib tr1 + length tr2 <=
+      length tbl * 11 + 8 * (length tbl * (n_iend tr1 + n_close tr1) + n_proxy_cancel_all tr1
+                             + total_timeouts n tbl (tr1 ++ tr2))
+    /\ (forall c, (N.of_nat (timeouts c (init n tbl) (tr1 ++ tr2)) * SAFETY <= now s)%N)
+    /\ ((forall e, lib_or_proxy e = true -> step s e = None) ->
+        (forall i r t, step s (IEnd i r t) = None) ->
+        (forall t, lp s t <> LShut) ->
+        forall c cr, getc s c = Some cr -> alive (lp s (cloop cr)) = true ->
+          done_or_unstarted (cpc cr) = true
+          \/ exists dl t s', waits_until cr dl /\ (now s < t)%N /\ (t <= dl)%N /\ step s (Adv t) = Some s').
+Proof. exact CacheWork.finite_work_then_done. Qed.
+Print Assumptions finite_work_then_done.
+
 (* MONITOR SOUNDNESS.  The trace monitor ok_C05 that the check evaluates on every trace observed
    from the real code — the run ends with End 0 (no deadlock, no step bound = spinning, no hang);
    when a loop's shutdown run is over every started call of that loop has been answered; and
